@@ -48,6 +48,78 @@ type accCtx struct {
 	after map[string]bool
 	init  bool
 	bind  map[ssa.Value]string // parameter / free variable -> cell
+	fns   map[ssa.Value]fnBind // func-typed parameter -> the function (closure) it was given at the call site
+}
+
+// fnBind: a function handed to a library function as an argument: the callee's calls of the parameter run it, with the
+// locks the callee holds at that point (a `withLock(func(){...})` helper)
+type fnBind struct {
+	fn  *ssa.Function
+	val ssa.Value // the MakeClosure, for its captured cells
+	ctx *accCtx   // the context the closure was created in
+}
+
+// onlyCalled: the func-typed parameter is only ever called (or handed on to a parameter that is only called) in its
+// function: a function given for it does not escape, it runs exactly where the parameter is called
+func onlyCalled(p *ssa.Parameter, depth int) bool {
+	if p == nil || p.Referrers() == nil || depth > 3 {
+		return false
+	}
+	for _, r := range *p.Referrers() {
+		switch x := r.(type) {
+		case *ssa.DebugRef:
+		case ssa.CallInstruction:
+			cc := x.Common()
+			if cc.Value == p {
+				for _, a := range cc.Args {
+					if a == p {
+						return false
+					}
+				}
+				continue
+			}
+			sc := cc.StaticCallee()
+			if sc == nil || len(sc.Blocks) == 0 {
+				return false
+			}
+			ok := false
+			for i, a := range cc.Args {
+				if a == p && i < len(sc.Params) {
+					ok = onlyCalled(sc.Params[i], depth+1)
+				}
+			}
+			if !ok {
+				return false
+			}
+		default:
+			return false
+		}
+	}
+	return true
+}
+
+// passedToCaller: the function value operand is an argument of a static call of a library function whose parameter is
+// only called: it is analysed where the callee calls it, not as an entry point of its own
+func (an *accAn) passedToCaller(ins ssa.Instruction, op ssa.Value) bool {
+	ci, ok := ins.(ssa.CallInstruction)
+	if !ok {
+		return false
+	}
+	if _, isGo := ins.(*ssa.Go); isGo {
+		return false
+	}
+	sc := ci.Common().StaticCallee()
+	if sc == nil || len(sc.Blocks) == 0 || an.libPkgs[sc.Pkg] == "" {
+		return false
+	}
+	for i, a := range ci.Common().Args {
+		if a == op {
+			if i >= len(sc.Params) || !onlyCalled(sc.Params[i], 0) {
+				return false
+			}
+		}
+	}
+	return true
 }
 
 type accAn struct {
@@ -182,6 +254,9 @@ func (an *accAn) functionUses() (onceOnly, valueUsed map[*ssa.Function]bool) {
 						if _, isMC := ins.(*ssa.MakeClosure); isMC {
 							continue // closure creation: the closure value's own uses are what matters
 						}
+						if an.passedToCaller(ins, *op) {
+							continue // runs where the callee calls its parameter, with the callee's locks
+						}
 						valueUsed[fn] = true
 						delete(onceOnly, fn)
 					}
@@ -239,6 +314,9 @@ func ctxKey(f *ssa.Function, c *accCtx) string {
 	var b []string
 	for v, cell := range c.bind {
 		b = append(b, v.Name()+"="+cell)
+	}
+	for v, fb := range c.fns {
+		b = append(b, fmt.Sprintf("%s=func %p", v.Name(), fb.fn))
 	}
 	sort.Strings(b)
 	return fmt.Sprintf("%p|%s|%s|%s|%s|%v", f, strings.Join(b, ","), heldList(c.held), c.once, setList(c.after), c.init)
@@ -737,6 +815,24 @@ func (an *accAn) call(f *ssa.Function, c *accCtx, ins ssa.Instruction, cc *ssa.C
 	}
 	sc := cc.StaticCallee()
 	if sc == nil {
+		if fb, ok := c.fns[cc.Value]; ok {
+			// a call of a func-typed parameter that was given a known function: it runs here, with what is held here
+			if emit {
+				nc := &accCtx{held: copyHeld(held), after: copySet(after), init: c.init, once: c.once, bind: map[ssa.Value]string{}, fns: map[ssa.Value]fnBind{}}
+				for i, a := range cc.Args {
+					if i < len(fb.fn.Params) {
+						if cell := an.cellOf(a, c, 0); cell != "" {
+							nc.bind[fb.fn.Params[i]] = cell
+						}
+					}
+				}
+				if fb.val != nil {
+					an.bindClosure(fb.val, fb.fn, fb.ctx, nc)
+				}
+				an.analyze(fb.fn, nc)
+			}
+			return
+		}
 		// call through a function value: its arguments escape
 		if emit {
 			for _, a := range cc.Args {
@@ -800,11 +896,16 @@ func (an *accAn) call(f *ssa.Function, c *accCtx, ins ssa.Instruction, cc *ssa.C
 		return
 	}
 	// library function: follow with parameter bindings and the locks held here
-	nc := &accCtx{held: copyHeld(held), after: copySet(after), init: c.init, once: c.once, bind: map[ssa.Value]string{}}
+	nc := &accCtx{held: copyHeld(held), after: copySet(after), init: c.init, once: c.once, bind: map[ssa.Value]string{}, fns: map[ssa.Value]fnBind{}}
 	for i, a := range cc.Args {
 		if i < len(sc.Params) {
 			if cell := an.cellOf(a, c, 0); cell != "" {
 				nc.bind[sc.Params[i]] = cell
+			}
+			if fn := funcOf(a); fn != nil && an.libPkgs[fn.Pkg] != "" {
+				nc.fns[sc.Params[i]] = fnBind{fn: fn, val: a, ctx: c}
+			} else if fb, ok := c.fns[a]; ok {
+				nc.fns[sc.Params[i]] = fb
 			}
 		}
 	}
